@@ -19,6 +19,7 @@ import (
 	"strings"
 	"time"
 
+	"grol.io/grol/extensions"
 	"verifharness/common"
 	. "verifharness/common"
 )
@@ -46,6 +47,42 @@ var memoPrelude = []input{
 	{src: `func slow(n){slw_t=0; for slw_i=0:n{slw_t=slw_t+slw_i%7}; slw_t}; func slow2(n){slow(n)+1}`, skel: "(S)"},
 	{src: `func rdeep(n){if n<=0 {return 0}; 1+rdeep(n-1)}`, skel: "(S)"},
 	{src: `func perr(n){prr_a=0; for prr_k=0:n{prr_a=prr_a+prr_k}; if prr_a>2 {error("pure boom")}; prr_a}`, skel: "(S)"},
+}
+
+// Failures inside code whose environment chain does not end in the session's root (library functions written in
+// grol by extensions.Init: keys, abs, str, printf, log2; a function value made by unjson) and inside code run by the
+// re-entrant extension eval() at top level, from a function and from a loop.
+var foreignPrelude = []input{
+	{src: `gx = 42; sq = func(a){a*a}`, skel: "(S)"},
+	{src: `bigm = {}; for bgi=0:120 {bigm[bgi]=bgi}; len(bigm)`, skel: "(S (L 11))"},
+	{src: `ug = unjson("func(n){self(n+1)}"); try = func(code){eval(code)}; pf = func(n){vpanic()}`, skel: "(S)"},
+}
+
+var foreignFailing = []input{
+	{src: `keys(bigm)`, skel: "(S (C 0 d))", fail: "depth-overflow-in-library-function"},
+	{src: `ug(0)`, skel: "(S (C 1 d))", fail: "depth-overflow-in-unjson-function"},
+	{src: `for a=0:2{ug(0)}`, skel: "(S (L 11 (S (C 1 d))))", fail: "depth-overflow-in-unjson-function-in-loop"},
+	{src: `eval("deep(0)")`, skel: "(S (C 1 d))", fail: "depth-overflow-in-eval"},
+	{src: `try("deep(0)")`, skel: "(S (C 0 (S (C 1 d))))", fail: "depth-overflow-in-eval-in-function"},
+	{src: `for a=0:2{eval("deep(0)")}`, skel: "(S (L 11 (S (C 1 d))))", fail: "depth-overflow-in-eval-in-loop"},
+	{src: `eval("pf(1)")`, skel: "(S (C 1 (S p)))", fail: "panic-in-eval"},
+	{src: `try("pf(1)")`, skel: "(S (C 0 (S (C 1 (S p)))))", fail: "panic-in-eval-in-function"},
+	{src: `eval("1+nosuchvar")`, skel: "(S e)", fail: "error-in-eval"},
+	// library functions entered with almost no depth left: the limit is hit inside or just before them
+	{src: `abs(-5)`, skel: "(S d)", fail: "depth-limit-around-abs", depth: 3, neutral: true},
+	{src: `abs(-5)`, skel: "(S d)", fail: "depth-limit-around-abs", depth: 4, neutral: true},
+	{src: `abs(-5)`, skel: "(S d)", fail: "depth-limit-around-abs", depth: 5, neutral: true},
+	{src: `str([1,2])`, skel: "(S d)", fail: "depth-limit-around-str", depth: 3, neutral: true},
+	{src: `str([1,2])`, skel: "(S d)", fail: "depth-limit-around-str", depth: 4, neutral: true},
+	{src: `log2(8)`, skel: "(S d)", fail: "depth-limit-around-log2", depth: 4, neutral: true},
+	{src: `log2(8)`, skel: "(S d)", fail: "depth-limit-around-log2", depth: 5, neutral: true},
+}
+
+// what later inputs must still be able to do: read earlier globals, call earlier functions, define and call new ones
+var foreignTail = []input{
+	{src: `println("gx is", gx); sq(gx)`, skel: "(S (C 1 (S)))"},
+	{src: `sq2 = func(a){a*a+gx}; for fi=0:2 {println(fi, sq2(fi))}`, skel: "(S (L 11 (S (C 1 (S))) (S (C 1 (S)))))"},
+	{src: `println(len(keys({"a":1,"b":2})), abs(-3), fact(4))`, skel: "(S)"},
 }
 
 const slowN = 100000 // a full run of slow(slowN) takes some tens of milliseconds; the failing call gets 2 ms
@@ -373,6 +410,7 @@ func checkHistory(c *Ctx, noReg bool, h []input, baseObs []SessObs, withModel bo
 }
 
 func runC10(c *Ctx) {
+	_ = extensions.Init(nil) // library functions written in grol (keys, abs, str, printf, log2), eval, unjson
 	c.Rule = "a history is non-trivial when at least one failing input is followed by a succeeding input whose output depends on the session (every generated history is: the base always ends with state-dependent inputs)"
 	if c.ReplayCase != "" {
 		noReg, h := decodeHist(c.ReplayCase)
@@ -450,6 +488,38 @@ func runC10(c *Ctx) {
 			noReg := (i+pi)%4 == 3
 			checkHistory(c, noReg, h, runHistory(c, noReg, base), true)
 			c.Count("memo-resubmission=" + mp.fail.fail)
+		}
+	}
+	// failures in foreign-rooted functions and in code re-entered through eval()
+	nForeign := 4
+	if c.Thorough() {
+		nForeign = 25
+	}
+	for i := 0; i < nForeign; i++ {
+		for fi, f := range foreignFailing {
+			for m := 1; m <= 2; m++ {
+				g := &hgen{r: c.R}
+				base := append(append([]input{}, preludeC10...), foreignPrelude...)
+				h := append([]input{}, base...)
+				for j := c.R.Intn(3); j > 0; j-- {
+					in := g.next()
+					base, h = append(base, in), append(h, in)
+				}
+				for k := 0; k < m; k++ {
+					h = append(h, f)
+				}
+				for j := c.R.Intn(3); j > 0; j-- {
+					in := g.next()
+					base, h = append(base, in), append(h, in)
+				}
+				noReg := (i+fi)%4 == 3
+				tail := append(append([]input{}, foreignTail...), input{src: `cnt = cnt + 1; println(cnt)`, skel: "(S)"})
+				tail = append(tail, budgetProbes(c, noReg)...)
+				base, h = append(base, tail...), append(h, tail...)
+				// neutral low-depth inputs have an outcome that is not predicted: no model line for them
+				checkHistory(c, noReg, h, runHistory(c, noReg, base), !f.neutral)
+				c.Count("foreign-or-reentrant=" + f.fail)
+			}
 		}
 	}
 	// every failing kind at every position with multiplicity 1..3
